@@ -137,9 +137,13 @@ impl<'a> Gen<'a> {
             if funds.is_empty() { funds.push(coin(1000, pi.assets[0].denom.clone())); }
         }
         funds.sort_by(|a, b| a.denom.cmp(&b.denom));
-        let (unlock, lockid) = match self.r.below(6) {
+        // lock options: none / new generated position / new explicit id / an EXISTING position id
+        // (own or somebody else's; existing ids are passed with their prefix, as the farm manager stores them)
+        let existing: Vec<String> = self.run.h.all_positions().iter().filter(|q| q.open).map(|q| q.identifier.clone()).collect();
+        let (unlock, lockid) = match self.r.below(8) {
             0 => ((DAY * (1 + self.r.below(300))).to_string(), "-".to_string()),
             1 => ((DAY * (1 + self.r.below(300))).to_string(), format!("l{}", self.r.below(3))),
+            2 | 3 if !existing.is_empty() => ((DAY * (1 + self.r.below(300))).to_string(), existing[self.r.below(existing.len() as u64) as usize].clone()),
             _ => ("-".to_string(), "-".to_string()),
         };
         let stable = !matches!(pi.pool_type, mantra_dex_std::pool_manager::PoolType::ConstantProduct);
